@@ -1,6 +1,6 @@
 (* Props/C16.v -- the property theorems of C16, and nothing else.  Each is closed by [exact] of a
    lemma proved in C16/, its statement is pinned by [Check], and [Print Assumptions] follows. *)
-From C16 Require Import Casm Vm Roundtrip Denote Step Run Fresh.
+From C16 Require Import Casm Vm Roundtrip Denote Step Run Fresh Commit.
 
 (* Every instruction the toolchain can assemble (every operand shape, register, offsets in the
    full i16 range, arbitrary immediate, with or without ap++) encodes to words that cairo-vm's
@@ -68,6 +68,16 @@ Proof. exact run_sound. Qed.
 Theorem C16_step_writes_fresh : forall finv r m s sr,
   vm_exec finv r m s = Some sr -> forall x w, In (x, w) (s_writes sr) -> m x = None.
 Proof. exact exec_writes_fresh. Qed.
+
+(* ... and the cells one step deduces are pairwise distinct (only `call` deduces two, [ap] and
+   [ap + 1], and the decoder accepts call words of that shape only): after a successful step of ANY
+   decoded word the insertion of the deduced cells cannot conflict -- [commit] fails only if a
+   deduced value leaves the range of the Rust types (Felt252 / usize offsets) *)
+Theorem C16_step_commit_total : forall finv w r m s sr,
+  decode w = Some r -> vm_exec finv r m s = Some sr ->
+  (forall x v, In (x, v) (s_writes sr) -> canon_b v = true) ->
+  exists m', commit m (s_writes sr) = Some m'.
+Proof. exact decoded_step_commit_total. Qed.
 
 (* non-vacuity: a three-instruction loaded program
      (0,0): [ap + 0] = 7, ap++        (0,2): [ap + 0] = [ap + -1] * [ap + -1], ap++
@@ -153,3 +163,4 @@ Print Assumptions C16_qm31_rejected.
 Print Assumptions C16_step_sound.
 Print Assumptions C16_run_sound.
 Print Assumptions C16_step_writes_fresh.
+Print Assumptions C16_step_commit_total.
